@@ -304,6 +304,7 @@ func runCheck(prop, tier, repo, verif, only string, updateBaseline bool) int {
 
 	sort.Slice(obls, func(i, j int) bool { return obls[i].Name < obls[j].Name })
 	nDis, nCover, nKnown, nViol, nUndecided := 0, 0, 0, 0, 0
+	nCoverUnknown := 0
 	var solverMs int64
 	byKind := map[string]int{}
 	bySolver := map[string]int{}
@@ -328,8 +329,7 @@ func runCheck(prop, tier, repo, verif, only string, updateBaseline bool) int {
 				lines = append(lines, fmt.Sprintf("VIOLATION property=%s replay=%s no-failing-input-found", prop, rp))
 				nViol++
 			} else {
-				nUndecided++
-				fmt.Printf("UNDECIDED(cover) %s\n", o.Name)
+				nCoverUnknown++
 			}
 			continue
 		}
@@ -372,7 +372,7 @@ func runCheck(prop, tier, repo, verif, only string, updateBaseline bool) int {
 	// labelled baseline obligations that vanished
 	if only == "" {
 		for _, n := range base.Discharged {
-			if !seen[n] && strings.Contains(n, ":") && !strings.Contains(n, "#safe.") {
+			if !seen[n] && (strings.Contains(n, "#ensures:") || strings.Contains(n, "#pkginv") || strings.Contains(n, "#const:") || strings.Contains(n, "#lemma:")) {
 				o := &Obligation{Name: n, Kind: "missing", Status: "unknown", Raw: "obligation present in the baseline is no longer generated (contract or function removed)"}
 				if _, ok := knownBy[n]; ok {
 					continue
@@ -468,6 +468,7 @@ func runCheck(prop, tier, repo, verif, only string, updateBaseline bool) int {
 			"by_solver":                bySolver,
 			"solver_time_ms":           solverMs,
 			"covers_satisfiable":       nCover,
+			"covers_not_shown_contradictory": nCoverUnknown,
 			"known_findings":           nKnown,
 			"undecided":                nUndecided,
 			"obligation_list":          oblJSON,
@@ -481,7 +482,7 @@ func runCheck(prop, tier, repo, verif, only string, updateBaseline bool) int {
 	for _, l := range lines {
 		fmt.Println(l)
 	}
-	fmt.Printf("property %s: %d obligations, %d discharged, %d known, %d violations, %d undecided, %d/%d covers; %.1fs\n", prop, nObl, nDis, nKnown, nViol, nUndecided, nCover, covers, time.Since(t0).Seconds())
+	fmt.Printf("property %s: %d obligations, %d discharged, %d known, %d violations, %d undecided, covers %d sat / %d inconclusive / %d total; %.1fs\n", prop, nObl, nDis, nKnown, nViol, nUndecided, nCover, nCoverUnknown, covers, time.Since(t0).Seconds())
 	if nViol > 0 {
 		return 1
 	}
